@@ -275,8 +275,19 @@ class C02(PropertyCheck):
     lean_modules = ["QipVerif.Props.C02"]
     drivers = ["drv_sim"]
     theorems = [
+        "QipVerif.C02.cond_iff",
+        "QipVerif.C02.fires_iff",
+        "QipVerif.C02.born_split",
+        "QipVerif.C02.probs_sum_one",
+        "QipVerif.C02.born_backend_ok",
+        "QipVerif.C02.postselect_eq_branch",
+        "QipVerif.C02.postselect_pruned_prob_zero",
+        "QipVerif.C02.unconstrained_run_mem_branches",
+        "QipVerif.C02.stat_eq_branches",
+        "QipVerif.C02.cbits_reported",
         "QipVerif.C02.C02_counterexample_ccv_out_of_range",
         "QipVerif.C02.C02_counterexample_cbits_alias",
+        "QipVerif.C02.C02_counterexample_dm_feedforward",
     ]
     technique = ("Lean 4 proof over an executable model of the simulator's control state machine (abstract quantum "
                  "backend, classical bits in an explicit heap) + model/implementation correspondence on an exact "
